@@ -7,14 +7,15 @@
     Outside the stated domain (an intermediate integer outside the signed 32-bit range, division by zero, an
     index out of range, % on a negative operand, a conversion the property does not define) the result is
     [ROut]: nothing is claimed there. *)
-From Coq Require Import String ZArith List Bool PrimFloat.
+From Coq Require Import String Ascii ZArith List Bool PrimFloat.
 From NSL Require Import Base.Types Base.Syntax Model.PyNum Spec.Overload.
 Import ListNotations.
 Local Open Scope Z_scope.
 
 Inductive rval := RInt (z : Z) | RFloat (f : float).
-(** storage: scalars, arrays (any dimension), structs *)
-Inductive sto := SV (v : rval) | SA (l : list sto) | SS (fs : list (string * sto)) | SNoValue.
+(** storage: scalars, arrays (any dimension), structs, vectors and matrices (values, not containers of storage) *)
+Inductive sto := SV (v : rval) | SA (l : list sto) | SS (fs : list (string * sto)) | SNoValue
+               | SVec (l : list rval) | SMat (rows : list (list rval)).
 
 Inductive rres (A : Type) := ROk (a : A) | ROut | RStuck | RFuel.
 Arguments ROk {A}. Arguments ROut {A}. Arguments RStuck {A}. Arguments RFuel {A}.
@@ -65,7 +66,74 @@ Definition eval_binop (o : binop) (a b : rval) : rres rval :=
       end
   end.
 
+(** ** vectors and matrices (C04): every operation is component-wise as written *)
+Fixpoint map_r {A B} (f : A -> rres B) (l : list A) : rres (list B) :=
+  match l with [] => ROk [] | x :: r => rdo y <- f x; rdo ys <- map_r f r; ROk (y :: ys) end.
+Fixpoint zip_r {A B C} (f : A -> B -> rres C) (l1 : list A) (l2 : list B) : rres (list C) :=
+  match l1, l2 with
+  | [], [] => ROk []
+  | x :: r1, y :: r2 => rdo z <- f x y; rdo zs <- zip_r f r1 r2; ROk (z :: zs)
+  | _, _ => RStuck
+  end.
+(** sum of products, left to right *)
+Fixpoint dot_r (acc : rval) (l1 l2 : list rval) : rres rval :=
+  match l1, l2 with
+  | [], [] => ROk acc
+  | x :: r1, y :: r2 => rdo p <- eval_binop OMul x y; rdo a <- eval_binop OAdd acc p; dot_r a r1 r2
+  | _, _ => RStuck
+  end.
+Definition column (rows : list (list rval)) (j : nat) : rres (list rval) :=
+  map_r (fun row => match nth_error row j with Some x => ROk x | None => RStuck end) rows.
+Definition mat_vec (m : list (list rval)) (v : list rval) : rres (list rval) := map_r (fun row => dot_r (RInt 0) row v) m.
+Definition mat_mat (a b : list (list rval)) : rres (list (list rval)) :=
+  let ncols := match b with r :: _ => length r | [] => O end in
+  map_r (fun row => map_r (fun j => rdo c <- column b j; dot_r (RInt 0) row c) (seq 0 ncols)) a.
+Definition is_muldiv (o : binop) : bool := match o with OMul | ODiv => true | _ => false end.
+
+Definition eval_binop_sto (o : binop) (a b : sto) : rres sto :=
+  match a, b with
+  | SV x, SV y => rdo v <- eval_binop o x y; ROk (SV v)
+  | SVec l, SV y => if is_muldiv o then rdo vs <- map_r (fun x => eval_binop o x y) l; ROk (SVec vs) else RStuck
+  | SMat m, SV y => if is_muldiv o then rdo vs <- map_r (map_r (fun x => eval_binop o x y)) m; ROk (SMat vs) else RStuck
+  | SV x, SVec l => match o with OMul => rdo vs <- map_r (fun y => eval_binop o x y) l; ROk (SVec vs) | _ => RStuck end
+  | SV x, SMat m => match o with OMul => rdo vs <- map_r (map_r (fun y => eval_binop o x y)) m; ROk (SMat vs) | _ => RStuck end
+  | SVec l1, SVec l2 => if is_muldiv o then RStuck else rdo vs <- zip_r (eval_binop o) l1 l2; ROk (SVec vs)
+  | SMat m1, SMat m2 =>
+      match o with
+      | OMul => rdo vs <- mat_mat m1 m2; ROk (SMat vs)
+      | OAdd | OSub => rdo vs <- zip_r (zip_r (eval_binop o)) m1 m2; ROk (SMat vs)
+      | _ => RStuck
+      end
+  | SMat m, SVec v => match o with OMul => rdo vs <- mat_vec m v; ROk (SVec vs) | _ => RStuck end
+  | _, _ => RStuck
+  end.
+
+(** swizzle letters: position in xyzw / rgba *)
+Definition letter_pos (c : Ascii.ascii) : option nat :=
+  if Ascii.eqb c "x" || Ascii.eqb c "r" then Some 0%nat else if Ascii.eqb c "y" || Ascii.eqb c "g" then Some 1%nat
+  else if Ascii.eqb c "z" || Ascii.eqb c "b" then Some 2%nat else if Ascii.eqb c "w" || Ascii.eqb c "a" then Some 3%nat else None.
+Fixpoint mask_indices (m : string) : option (list nat) :=
+  match m with
+  | EmptyString => Some []
+  | String c r => match letter_pos c, mask_indices r with Some i, Some l => Some (i :: l) | _, _ => None end
+  end.
+Definition pick (l : list rval) (idxs : list nat) : rres sto :=
+  rdo vs <- map_r (fun i => match nth_error l i with Some x => ROk x | None => RStuck end) idxs;
+  match vs with [x] => ROk (SV x) | _ => ROk (SVec vs) end.
+Fixpoint nodup_nat (l : list nat) : bool :=
+  match l with [] => true | x :: r => negb (existsb (Nat.eqb x) r) && nodup_nat r end.
+Fixpoint list_upd {A} (l : list A) (n : nat) (x : A) : list A :=
+  match l, n with [], _ => [] | _ :: r, O => x :: r | y :: r, S n' => y :: list_upd r n' x end.
+(** write vs[k] to component idxs[k] *)
+Fixpoint scatter (l : list rval) (idxs : list nat) (vs : list rval) : rres (list rval) :=
+  match idxs, vs with
+  | [], [] => ROk l
+  | i :: ir, v :: vr => if Nat.ltb i (length l) then scatter (list_upd l i v) ir vr else RStuck
+  | _, _ => RStuck
+  end.
+
 (** ** storage *)
+Definition zero_rval (c : comp) : rval := match c with CFloat => RFloat zero | _ => RInt 0 end.
 Fixpoint zero_of (structs : list sdef) (fuel : nat) (t : ty) : sto :=
   match fuel with
   | O => SNoValue
@@ -73,7 +141,8 @@ Fixpoint zero_of (structs : list sdef) (fuel : nat) (t : ty) : sto :=
       match t with
       | TPrim (PScalar CFloat) => SV (RFloat zero)
       | TPrim (PScalar _) => SV (RInt 0)
-      | TPrim _ => SNoValue
+      | TPrim (PVec c n) => SVec (repeat (zero_rval c) n)
+      | TPrim (PMat c r k) => SMat (repeat (repeat (zero_rval c) k) r)
       | TVoid => SNoValue
       | TStruct n =>
           match find (fun d => String.eqb (s_name d) n) structs with
@@ -89,12 +158,19 @@ Inductive sel := SelIdx (i : nat) | SelField (f : string).
 Fixpoint sto_get (s : sto) (path : list sel) : rres sto :=
   match path with
   | [] => ROk s
-  | SelIdx i :: r => match s with SA l => match nth_error l i with Some x => sto_get x r | None => ROut end | _ => RStuck end
-  | SelField f :: r => match s with SS fs => match find (fun p => String.eqb (fst p) f) fs with Some p => sto_get (snd p) r | None => RStuck end | _ => RStuck end
+  | SelIdx i :: r =>
+      match s with
+      | SA l => match nth_error l i with Some x => sto_get x r | None => ROut end
+      | SVec l => match nth_error l i with Some x => sto_get (SV x) r | None => ROut end
+      | SMat m => match nth_error m i with Some row => sto_get (SVec row) r | None => ROut end
+      | _ => RStuck end
+  | SelField f :: r =>
+      match s with
+      | SS fs => match find (fun p => String.eqb (fst p) f) fs with Some p => sto_get (snd p) r | None => RStuck end
+      | SVec l => match mask_indices f with Some idxs => rdo v <- pick l idxs; sto_get v r | None => RStuck end
+      | SV x => match mask_indices f with Some idxs => rdo v <- pick [x] idxs; sto_get v r | None => RStuck end
+      | _ => RStuck end
   end.
-
-Fixpoint list_upd {A} (l : list A) (n : nat) (x : A) : list A :=
-  match l, n with [], _ => [] | _ :: r, O => x :: r | y :: r, S n' => y :: list_upd r n' x end.
 
 Fixpoint sto_set (s : sto) (path : list sel) (v : sto) : rres sto :=
   match path with
@@ -103,6 +179,14 @@ Fixpoint sto_set (s : sto) (path : list sel) (v : sto) : rres sto :=
                      | SA l => match nth_error l i with
                                | Some x => rdo x' <- sto_set x r v; ROk (SA (list_upd l i x'))
                                | None => ROut end
+                     | SVec l => match nth_error l i, r, v with
+                                 | Some _, [], SV y => ROk (SVec (list_upd l i y))
+                                 | None, _, _ => ROut
+                                 | _, _, _ => RStuck end
+                     | SMat m => match nth_error m i with
+                                 | Some row => rdo row' <- sto_set (SVec row) r v;
+                                               match row' with SVec rr => if Nat.eqb (length rr) (length row) then ROk (SMat (list_upd m i rr)) else RStuck | _ => RStuck end
+                                 | None => ROut end
                      | _ => RStuck end
   | SelField f :: r => match s with
                        | SS fs =>
@@ -113,6 +197,17 @@ Fixpoint sto_set (s : sto) (path : list sel) (v : sto) : rres sto :=
                                                              else rdo rest' <- go rest; ROk ((k, x) :: rest')
                                          end) fs;
                            ROk (SS fs')
+                       | SVec l =>
+                           (* a swizzle write: exactly the named components change; masks that repeat a component are not defined *)
+                           match mask_indices f, r with
+                           | Some idxs, [] =>
+                               if negb (nodup_nat idxs) then ROut else
+                               match v, idxs with
+                               | SV y, [i] => rdo l' <- scatter l [i] [y]; ROk (SVec l')
+                               | SVec vs, _ :: _ :: _ => rdo l' <- scatter l idxs vs; ROk (SVec l')
+                               | _, _ => RStuck
+                               end
+                           | _, _ => RStuck end
                        | _ => RStuck end
   end.
 
@@ -161,8 +256,19 @@ Definition scalar (s : sto) : rres rval := match s with SV v => ROk v | _ => RSt
 Definition aop_binop (o : aop) : option binop :=
   match o with AAssign => None | AAddEq => Some OAdd | ASubEq => Some OSub | AMulEq => Some OMul | ADivEq => Some ODiv end.
 
+Definition rval_comp (v : rval) : comp := match v with RInt _ => CInt | RFloat _ => CFloat end.
 Definition dyn_ty (v : sto) : ty :=
-  match v with SV (RInt _) => TPrim (PScalar CInt) | SV (RFloat _) => TPrim (PScalar CFloat) | _ => TVoid end.
+  match v with
+  | SV x => TPrim (PScalar (rval_comp x))
+  | SVec (x :: r) => TPrim (PVec (rval_comp x) (S (length r)))
+  | SMat ((x :: r) :: rows) => TPrim (PMat (rval_comp x) (S (length rows)) (S (length r)))
+  | _ => TVoid end.
+Definition conv_comp (c : comp) (x : rval) : rres rval :=
+  match c, x with
+  | CFloat, _ => rdo f <- to_f x; ROk (RFloat f)
+  | _, RInt _ => ROk x
+  | _, RFloat _ => ROut
+  end.
 
 (** conversion of an argument to the parameter type: only int -> float is defined by the property *)
 Definition convert_arg (p : ty) (v : sto) : rres sto :=
@@ -171,7 +277,32 @@ Definition convert_arg (p : ty) (v : sto) : rres sto :=
   | TPrim (PScalar CFloat), SV (RFloat _) => ROk v
   | TPrim (PScalar CInt), SV (RInt _) => ROk v
   | TPrim (PScalar CInt), SV (RFloat _) => ROut
+  | TPrim (PVec c n), SVec l => if Nat.eqb (length l) n then rdo l' <- map_r (conv_comp c) l; ROk (SVec l') else RStuck
+  | TPrim (PMat c r k), SMat m => if Nat.eqb (length m) r then rdo m' <- map_r (map_r (conv_comp c)) m; ROk (SMat m') else RStuck
   | _, _ => ROut
+  end.
+
+(** values supplied by the host for a parameter or global of vector / matrix type arrive as lists *)
+Definition host_coerce (t : ty) (v : sto) : sto :=
+  match t, v with
+  | TPrim (PVec _ _), SA l => match map_r (fun s => match s with SV x => ROk x | _ => RStuck end) l with ROk xs => SVec xs | _ => v end
+  | TPrim (PMat _ _ _), SA rows =>
+      match map_r (fun row => match row with
+                              | SA l => map_r (fun s => match s with SV x => ROk x | _ => RStuck end) l
+                              | _ => RStuck end) rows with ROk m => SMat m | _ => v end
+  | _, _ => v
+  end.
+
+(** constructors: scalar and vector arguments are flattened in order; a matrix is built from its rows *)
+Definition flatten_args (vs : list sto) : rres (list rval) :=
+  rdo ls <- map_r (fun s => match s with SV x => ROk [x] | SVec l => ROk l | _ => RStuck end) vs; ROk (concat ls).
+Definition construct (t : pty) (vs : list sto) : rres sto :=
+  match t with
+  | PVec c n => rdo xs <- flatten_args vs; if Nat.eqb (length xs) n then rdo ys <- map_r (conv_comp c) xs; ROk (SVec ys) else RStuck
+  | PMat c r k =>
+      rdo rows <- map_r (fun s => match s with SVec l => if Nat.eqb (length l) k then map_r (conv_comp c) l else RStuck | _ => RStuck end) vs;
+      if Nat.eqb (length rows) r then ROk (SMat rows) else RStuck
+  | PScalar _ => RStuck
   end.
 
 Section Eval.
@@ -217,7 +348,7 @@ Section Eval.
         | EBin o l r =>
             rdo p <- eval fu l st; let '(a, st1) := p in
             rdo q <- eval fu r st1; let '(b, st2) := q in
-            rdo x <- scalar a; rdo y <- scalar b; rdo v <- eval_binop o x y; ROk (SV v, st2)
+            rdo v <- eval_binop_sto o a b; ROk (v, st2)
         | EAssign o l r =>
             match aop_binop o with
             | Some bo => eval fu (EAssign AAssign l (EBin bo l r)) st          (* x op= y  is  x = x op y *)
@@ -256,7 +387,7 @@ Section Eval.
                 | _ => RStuck
                 end
             end
-        | ECtor _ _ => RStuck
+        | ECtor t args => rdo p <- eval_list args st; let '(vs, st1) := p in rdo v <- construct t vs; ROk (v, st1)
         end
     end
   with exec (fuel : nat) (s : stmt) (st : state) : rres (flow * state) :=
@@ -355,7 +486,7 @@ Section Eval.
                         match ps with
                         | [] => ROk []
                         | (t, x) :: r => match find (fun p => String.eqb (fst p) x) args with
-                                         | Some p => rdo rest <- go r; ROk ((x, snd p) :: rest)
+                                         | Some p => rdo rest <- go r; ROk ((x, host_coerce t (snd p)) :: rest)
                                          | None => RStuck end
                         end) (f_args fn);
         rdo r <- exec_list fuel (f_body fn) {| locals := [[]; bound]; globs := g |};
